@@ -524,4 +524,26 @@ theorem terms_filter_eq (geom : List (Atom Rat)) (cw : Option String) (ws : List
         | some w => exact absurd ((mem_keys_iff_lookup ws a.key).2 (by simp [hl])) hk
       simp [hn]
 
+theorem wsum_zero_of_weights (l : List (Rat × V3 Rat)) (h : ∀ t ∈ l, t.1 = 0) : wsum l = 0 := by
+  induction l with
+  | nil => rfl
+  | cons t r ih =>
+    unfold wsum
+    rw [h t List.mem_cons_self, ih (fun t' ht' => h t' (List.mem_cons_of_mem _ ht'))]
+    exact Rat.add_zero 0
+
+theorem lastW_filter (a k : Int) (log : List (Int × Int × Rat)) (acc : Option Rat) :
+    lastW a k (log.filter (fun e => e.2.1 == k)) acc = lastW a k log acc := by
+  induction log generalizing acc with
+  | nil => rfl
+  | cons e es ih =>
+    by_cases hk : e.2.1 = k
+    · rw [List.filter_cons_of_pos (by simpa using hk)]
+      simp only [lastW]
+      exact ih _
+    · rw [List.filter_cons_of_neg (by simpa using hk)]
+      simp only [lastW]
+      rw [if_neg (fun hh => hk hh.2.symm)]
+      exact ih _
+
 end C09
